@@ -151,6 +151,90 @@ static std::string transpose64(const std::vector<std::vector<bool>> &A) {
     return s;
 }
 
+// primitives whose definition is plain index arithmetic (checked here against the bit-by-bit definition, all three widths):
+// for_each_set_bit, prefix_ref, word_range_ref, preserving / destructive resize, masked randomize, from_quadrants,
+// overwrite_major_range_with, resize (copy_into_different_size_table)
+template <size_t W>
+static std::string index_defined(Rng rng, size_t n, const std::vector<bool> &a) {
+    std::string bad;
+    auto x = to_simd<W>(a, false, rng);
+    {   // for_each_set_bit
+        std::vector<size_t> got, want;
+        x.for_each_set_bit([&](size_t i) { got.push_back(i); });
+        for (size_t i = 0; i < n; i++) if (a[i]) want.push_back(i);
+        if (got != want) bad += " for_each_set_bit";
+    }
+    {   // prefix_ref: a view of the first k bits (padded to whole words) of the same storage
+        size_t kk = rng.below(n + 1);
+        auto p = x.prefix_ref(kk);
+        if (p.num_bits_padded() < kk || p.num_bits_padded() > x.num_bits_padded() || p.u8 != x.u8) bad += " prefix_ref-shape";
+        for (size_t i = 0; i < kk; i++) if ((bool)p[i] != a[i]) { bad += " prefix_ref-bits"; break; }
+    }
+    if (x.num_simd_words > 0) {   // word_range_ref: writing through the view touches exactly that word range
+        size_t off = rng.below(x.num_simd_words), cnt = 1 + rng.below(x.num_simd_words - off);
+        auto y = x;
+        y.word_range_ref(off, cnt).invert_bits();
+        for (size_t i = 0; i < x.num_bits_padded(); i++) {
+            bool inside = i >= off * W && i < (off + cnt) * W;
+            if ((bool)y[i] != ((bool)x[i] ^ inside)) { bad += " word_range_ref"; break; }
+        }
+    }
+    {   // resizes
+        size_t m = rng.chance(0.5) ? rng.below(n + 1) : n + rng.below(300);
+        auto y = x;
+        y.preserving_resize(m);
+        if (y.num_bits_padded() < m) bad += " preserving_resize-size";
+        for (size_t i = 0; i < y.num_bits_padded(); i++) {
+            bool want = i < std::min(n, m) && i < n ? (bool)x[i] : false;
+            if (i < std::min(x.num_bits_padded(), y.num_bits_padded())) want = x[i];   // whole words are kept, padding included (here: clean)
+            if ((bool)y[i] != want) { bad += " preserving_resize-bits"; break; }
+        }
+        auto z = x;
+        z.destructive_resize(m);
+        if (z.num_bits_padded() < m) bad += " destructive_resize";   // (documented: contents unspecified, no-op when the padded size is unchanged)
+    }
+    {   // randomize(k): bits at and beyond k keep their values
+        size_t kk = rng.below(n + 1);
+        auto y = x;
+        std::mt19937_64 r(rng.next());
+        y.randomize(kk, r);
+        for (size_t i = kk; i < x.num_bits_padded(); i++) if ((bool)y[i] != (bool)x[i]) { bad += " randomize-touches-beyond-k"; break; }
+        if (kk >= 200) { size_t ones = 0; for (size_t i = 0; i < kk; i++) ones += y[i]; if (ones < kk / 4 || ones > kk - kk / 4) bad += " randomize-not-random"; }
+    }
+    {   // tables
+        size_t q = 1 + rng.below(rng.chance(0.3) ? 130 : 9);
+        auto rnd_tab = [&](size_t rr, size_t cc) { simd_bit_table<W> t(rr, cc); for (size_t i = 0; i < rr; i++) for (size_t j = 0; j < cc; j++) t[i][j] = rng.chance(0.5); return t; };
+        auto ul = rnd_tab(q, q), ur = rnd_tab(q, q), ll = rnd_tab(q, q), lr = rnd_tab(q, q);
+        auto big = simd_bit_table<W>::from_quadrants(q, ul, ur, ll, lr);
+        for (size_t i = 0; i < 2 * q && bad.find("from_quadrants") == std::string::npos; i++)
+            for (size_t j = 0; j < 2 * q; j++) {
+                bool want = i < q ? (j < q ? (bool)ul[i][j] : (bool)ur[i][j - q]) : (j < q ? (bool)ll[i - q][j] : (bool)lr[i - q][j - q]);
+                if ((bool)big[i][j] != want) { bad += " from_quadrants"; break; }
+            }
+        // overwrite a major range
+        size_t rows = 2 + rng.below(200), cols = 1 + rng.below(150);
+        auto dst = rnd_tab(rows, cols), src = rnd_tab(rows, cols), before = dst;
+        size_t cnt = rng.below(rows), d0 = rng.below(rows - cnt + 1), s0 = rng.below(rows - cnt + 1);
+        dst.overwrite_major_range_with(d0, src, s0, cnt);
+        for (size_t i = 0; i < rows && bad.find("overwrite_major") == std::string::npos; i++)
+            for (size_t j = 0; j < cols; j++) {
+                bool want = (i >= d0 && i < d0 + cnt) ? (bool)src[i - d0 + s0][j] : (bool)before[i][j];
+                if ((bool)dst[i][j] != want) { bad += " overwrite_major_range_with"; break; }
+            }
+        // resize keeps the overlap, zeroes the rest
+        auto t = rnd_tab(rows, cols), t0 = t;
+        size_t nr = rng.chance(0.5) ? 1 + rng.below(rows) : rows + rng.below(300), nc = rng.chance(0.5) ? 1 + rng.below(cols) : cols + rng.below(300);
+        t.resize(nr, nc);
+        for (size_t i = 0; i < std::min(rows, nr) && bad.find("resize") == std::string::npos; i++)
+            for (size_t j = 0; j < std::min(cols, nc); j++)
+                if ((bool)t[i][j] != (bool)t0[i][j]) { bad += " table-resize"; break; }
+        auto t2 = t0;
+        t2.destructive_resize(nr, nc);
+        if (t2.num_major_bits_padded() < nr || t2.num_minor_bits_padded() < nc) bad += " table-destructive_resize";
+    }
+    return bad.empty() ? "ok" : bad;
+}
+
 VH_AREA(bits) {
     Stats st;
     Rng master(a.seed * 86028121 + 29);
@@ -158,6 +242,17 @@ VH_AREA(bits) {
     for (uint64_t k = 0; k < a.n; k++) {
         Rng rng = master.sub(k);
         if (!a.want(k)) continue;
+        if (k % 13 == 12) {
+            size_t n = rng.chance(0.8) ? rng.pick(SIZES) : rng.below(700);
+            auto x = rand_bv(rng, n, (int)rng.below(6));
+            out_case(k, "index-defined primitives n=" + std::to_string(n));
+            std::string r64 = index_defined<64>(rng, n, x), r128 = index_defined<128>(rng, n, x), r256 = index_defined<256>(rng, n, x);
+            if (r64 != "ok") out_x("W=64:" + r64 + " differ(s) from the index definition");
+            if (r128 != "ok") out_x("W=128:" + r128 + " differ(s) from the index definition");
+            if (r256 != "ok") out_x("W=256:" + r256 + " differ(s) from the index definition");
+            st.hit("index_defined_primitives");
+            continue;
+        }
         if (k % 3 != 2) {
             size_t n = rng.chance(0.8) ? rng.pick(SIZES) : rng.below(700);
             int op = (int)rng.below(17);
